@@ -85,6 +85,11 @@ func ParSignedDataFromProto(typ DutyType, data *pbv1.ParSignedData) (_ ParSigned
 			return ParSignedData{}, errors.Wrap(err, "unmarshal validator (builder) registration")
 		}
 
+		// The SSZ decoder of the wrapped type accepts any version number, reject what the constructor rejects.
+		if _, err := NewVersionedSignedValidatorRegistration(&r.VersionedSignedValidatorRegistration); err != nil {
+			return ParSignedData{}, errors.Wrap(err, "invalid validator (builder) registration")
+		}
+
 		signedData = r
 	case DutyExit:
 		var e SignedVoluntaryExit
